@@ -72,7 +72,8 @@ void AttributedItem::dumpString(bool prependFieldSeparator, const string& str, o
   }
   string::size_type pos = str.find_first_of(TEXT_SEPARATOR);
   if (str.find_first_of(FIELD_SEPARATOR) == string::npos
-  && (pos == string::npos || (pos > 0 && pos < str.length() - 1))) {
+  && (pos == string::npos || (pos > 0 && pos < str.length() - 1
+  && str.find(string(2, TEXT_SEPARATOR)) == string::npos))) {
     *output << str;
   } else if (pos == string::npos) {
     *output << TEXT_SEPARATOR << str << TEXT_SEPARATOR;
